@@ -14,6 +14,44 @@ CACHE_DECORATORS = ("lru_cache", "cache", "cached_property", "memoize", "singled
 VALUE_CLASSES = ("schwifty.iban.IBAN", "schwifty.bic.BIC", "schwifty.bban.BBAN")
 
 
+_SCALAR_ANNOTATIONS = {"str", "int", "bool", "float", "bytes", "None"}
+
+
+def _harmless_cache(eff, f):
+    """functools.lru_cache / cache on f is unobservable: f is a module-level function (no self whose identity is lost in the key), its
+    declared result is an immutable scalar (a shared container could be mutated by one caller for all), its parameters are annotated
+    as scalars, and neither f nor anything it calls has a write effect."""
+    if f.cls is not None or f.outer is not None:
+        return False
+    ret = f.node.returns
+    if ret is None or ast.unparse(ret) not in _SCALAR_ANNOTATIONS:
+        return False
+    a = f.node.args
+    if a.vararg or a.kwarg:
+        return False
+    for p in list(a.posonlyargs) + list(a.args) + list(a.kwonlyargs):
+        if p.annotation is None or ast.unparse(p.annotation) not in _SCALAR_ANNOTATIONS:
+            return False
+    for fid, (g, _) in eff.reachable([f]).items():
+        if eff.direct_effects(g):
+            return False
+    return True
+
+
+def _only_called_while_constructing(eff, f, ctor, _seen=None):
+    """f is a private helper every caller of which is a constructor-time method (transitively): its stores happen during construction."""
+    _seen = _seen or set()
+    if id(f) in _seen:
+        return True
+    _seen.add(id(f))
+    if not f.name.startswith("_") or f.name.startswith("__"):
+        return False
+    callers = [g for g in eff.funcs if any(h is f for h in eff.calls.get(id(g), ()))]
+    if not callers:
+        return False
+    return all(g.name in ctor or _only_called_while_constructing(eff, g, ctor, _seen) for g in callers)
+
+
 def run(ctx, report):
     prog = ctx.program
     facts = ctx.facts
@@ -66,6 +104,10 @@ def run(ctx, report):
         for d in f.decorators:
             dn = dotted(d) or dotted(getattr(d, "func", None)) or ""
             if dn.split(".")[-1] in CACHE_DECORATORS:
+                if dn.split(".")[-1] in ("lru_cache", "cache") and _harmless_cache(eff, f):
+                    # memoising a module-level function that has no effects, takes and returns immutable scalars cannot be observed
+                    r_c.instance({"function": f.qualname, "decorator": dn, "harmless": "module-level, effect-free, scalar result"})
+                    continue
                 r_c.finding(f"{f.short}:@{dn}", f"{f.short} is memoised with @{dn}: for methods of the string value classes the cache key is the compact string only, "
                             "so objects that differ in other attributes (country of a BBAN, flags) share results; for others it pins results across registry changes",
                             f.where)
@@ -82,8 +124,9 @@ def run(ctx, report):
                     if e.kind == "self-store":
                         stores.append((f, e))
         r_i.instance({"class": q, "attribute stores": [f"{f.short}: self.{e.target}" for f, e in stores]})
+        ctor = ("__init__", "__new__", "__deepcopy__", "__setstate__")
         for f, e in stores:
-            if f.name not in ("__init__", "__new__", "__deepcopy__", "__setstate__"):
+            if f.name not in ctor and not _only_called_while_constructing(eff, f, ctor):
                 r_i.finding(f"{f.short}:self.{e.target}", f"{f.short} stores self.{e.target} on a value object after construction: later calls on the same object see it", e.where)
 
     # ------------------------------------------------------------------ R15-import
